@@ -240,4 +240,11 @@ def runHistory (env : Env) (h : Heap) : Reg → List Event → List Out2
     let o := tEval2 env h (Val.sent "T" :: flatOfSteps steps) t r
     o :: runHistory env h o.reg es
 
+/-- the registry a history leaves behind -/
+def histReg (env : Env) (h : Heap) : Reg → List Event → Reg
+  | r, [] => r
+  | r, .register c hn ex :: es => histReg env h (r.register c hn ex) es
+  | r, .glom steps t :: es =>
+    histReg env h (tEval2 env h (Val.sent "T" :: flatOfSteps steps) t r).reg es
+
 end Glom.C01
